@@ -19,16 +19,17 @@ __version__ = "symx-stub"
 
 
 def _clip(val, lo, hi):
-    """lmfit's value setter: clip into [min, max] (no path split)."""
+    """lmfit's value setter: clip into [min, max].  Decided on the path (the
+    harness assumptions normally make one side infeasible)."""
     if val is None:
         return val
     v = val
-    if not core.is_inf(hi):
-        c = v > hi
-        v = hi if c is True else (v if c is False else sym_ite(c, hi, v))
-    if not core.is_inf(lo):
-        c = v < lo
-        v = lo if c is True else (v if c is False else sym_ite(c, lo, v))
+    if core.is_nan(v):
+        return v
+    if not core.is_inf(hi) and core.decide(v > hi):
+        v = hi
+    elif not core.is_inf(lo) and core.decide(v < lo):
+        v = lo
     return v
 
 
@@ -291,6 +292,7 @@ def minimize(fcn, params, method="leastsq", args=None, kws=None, **fit_kws):
                 if not core.is_inf(p.max):
                     core.assume(val <= p.max)
             p._val = val
+    rec["opt_values"] = {name: p._val for name, p in out.items()}
     res = MinimizerResult()
     res.params = out
     res.success = True
